@@ -18,11 +18,13 @@
 //        status=<n> approx=<b> evals=<n> polls=<n> qhash=<h> path=<len>:<h> pdata=<nv>:<h-in-order>:<h-sorted>
 //     qhash hashes every validity query (state bits + answer) and every propagation in order; with trace=1 every
 //     query is also printed ("q <i> <answer> <bits…>") so that two diverging runs can be diffed.
+//     Environment C20_HEAP_NOISE=<k> fragments the heap first (see heapNoise()); C20_PAD only enlarges the environment.
 //     A line "# heap=<addr> stack=<addr>" (not compared; it shows that the address space really moved) precedes it.
 #include "common/proto.h"
 
 #include <algorithm>
 #include <csignal>
+#include <cstdlib>
 #include <functional>
 #include <map>
 #include <memory>
@@ -615,8 +617,38 @@ static std::map<std::string, std::string> kv(const std::vector<std::string> &t)
     return m;
 }
 
+// ASLR moves the whole heap by one offset, which leaves the *relative* position of all allocations — and with it the
+// collision pattern and iteration order of pointer-keyed hash containers and the outcome of pointer comparisons —
+// unchanged.  C20_HEAP_NOISE=<k> makes this process allocate and partly free a k-dependent set of blocks first, so
+// that the planner's later allocations land at different relative addresses (as they would in any program that does
+// anything else beforehand).  Nothing else reads the variable.
+static std::vector<void *> g_noise;
+static void heapNoise()
+{
+    const char *e = getenv("C20_HEAP_NOISE");
+    if (!e)
+        return;
+    unsigned long x = std::strtoul(e, nullptr, 10);
+    if (x == 0)
+        return;
+    std::vector<void *> tmp;
+    for (int i = 0; i < 3000; ++i)
+    {
+        x = x * 6364136223846793005UL + 1442695040888963407UL;
+        size_t sz = 16 + ((x >> 33) % 2040);
+        void *p = ::operator new(sz);
+        if ((x >> 20) & 1)
+            tmp.push_back(p);
+        else
+            g_noise.push_back(p);
+    }
+    for (void *p : tmp)
+        ::operator delete(p);
+}
+
 static int planMode()
 {
+    heapNoise();
     if (!getenv("C20_LOG"))  // debugging aid: let OMPL's log through (stderr/stdout of the harness; never compared)
         ompl::msg::noOutputHandler();
     std::string line;
